@@ -75,7 +75,7 @@ check("C01", "model_checking",
       "(quick) / 3 (thorough) plus -O2+libstdc++-assertions build one level deeper, pruned on a state digest taken at the "
       "observation point before end of input; then every single structural/byte fault and truncation of a kitchen-sink XML "
       "document and the repository models (buffer/fd/file), 35 growth families for recursion depth and time "
-      "proportionality (CPU time, re-measured alone), a grid of token lengths around the lexer's 4000-byte limit in 16 position classes, and 1100+ documents with semantically invalid but syntactically clean declarations and labels (the builder's error branches; alone, in pairs, in four slots), every dynamic-template construct (4 quantifiers over instances x 7 kinds of template operand x 28 body shapes, spawn/exit/numOf x 21 operand shapes, in labels, function bodies and queries) and 55 more searches with a dynamic template in scope. Oracle: returns or throws std::exception, no sanitizer/assertion report, process alive, in time.",
+      "proportionality (CPU time, re-measured alone), a grid of token lengths around the lexer's 4000-byte limit in 16 position classes, and 1100+ documents with semantically invalid but syntactically clean declarations and labels (the builder's error branches; alone, in pairs, in four slots), every dynamic-template construct (4 quantifiers over instances x 7 kinds of template operand x 28 body shapes, spawn/exit/numOf x 21 operand shapes, in labels, function bodies and queries) and 55 more searches with a dynamic template in scope; initialiser lists of up to 3/4 elements for records and arrays; 396 synchronisation x guard x controllability x invariant combinations; 2488 ill-typed queries (every query form with one operand or the bound of the wrong kind); 12000+ whole texts through the pretty-printing back end. Oracle: returns or throws std::exception, no sanitizer/assertion report, process alive, in time.",
       "No hand model: every transition is an execution of the implementation (traces_validated_against_impl = runs). Pruning "
       "is sound if the digest covers what later callbacks read (DESIGN.md §3/C01); 'shape'-digest runs are heuristic. Bounded: "
       "token strings up to the depth from the listed seeds/alphabets; single (thorough: sampled pairs of) XML faults.",
